@@ -815,6 +815,118 @@ func e11ResumeCase(seed uint64, n int) Case {
 	}}
 }
 
+// e11CatchUpCase: a consumer that never read has a full buffer; one more event
+// overruns it, and while the library is still busy reporting that overrun (the
+// harness's logger holds the moment open) the consumer takes everything it
+// holds.  Events published AFTER it has emptied its buffer were at no moment
+// beyond its buffer capacity: it receives every one of them, in order.
+func e11CatchUpCase(seed uint64, n int) Case {
+	id := fmt.Sprintf("E11/catch-up-during-overrun-report/%d/%d", seed, n)
+	hold := []time.Duration{200 * time.Microsecond, time.Millisecond, 5 * time.Millisecond}[n%3]
+	d := e11desc{"catch-up-during-overrun-report", n, 0, seed, "overrun:" + hold.String()}
+	return Case{ID: id, Desc: d, Bubble: true, Run: func(r *Res) {
+		rng := kit.NewRng(kit.Mix(seed, uint64(n)+0xCA7C4))
+		core := kit.NewCore(&kit.Plan{Seed: rng.U64(), PYield: 100, Targets: map[string]time.Duration{"overrun": hold, "buffer full": hold}})
+		g := newRootRig(core, nil)
+		g.root.MakeReady()
+		t := newTree(g.root.Publisher())
+		parent := t.root
+		if n%2 == 1 {
+			cl, err := t.addChild(t.root, "clone", nil, false)
+			if err != nil {
+				r.V("C10", "tree-build-error", "%v", err)
+				return
+			}
+			parent = cl
+		}
+		lag, err1 := t.addChild(parent, "sub", nil, false)
+		hl, err2 := t.addChild(parent, "sub", nil, true)
+		if err1 != nil || err2 != nil {
+			r.V("C10", "tree-build-error", "%v %v", err1, err2)
+			return
+		}
+		lag.stalled = true
+		g.barrier()
+		rv := 0
+		pub := func() (evrec, bool) {
+			rv++
+			o := kit.Pod("n0", fmt.Sprintf("k%d", rv%5), strconv.Itoa(rv), map[string]string{"l": "x"})
+			typ := kcache.EventTypeUpdate
+			if rv <= 5 {
+				typ = kcache.EventTypeCreate
+			}
+			var err error
+			if !within(func() { _, err = g.apply(typ, o) }) {
+				r.V("C10", "producer-blocked", "publishing event %d did not complete within %v of virtual time\n%s", rv, virtBound, kit.CensusText(kit.Census(), 10))
+				return evrec{}, false
+			}
+			if err != nil {
+				r.V("C10", "publish-error", "%v", err)
+				return evrec{}, false
+			}
+			return evrec{Type: typ, Key: kit.Key(o), RV: o.GetResourceVersion()}, true
+		}
+		for i := 0; i < kcache.EventBufsiz; i++ {
+			if _, ok := pub(); !ok {
+				return
+			}
+			if i%25 == 24 {
+				g.barrier()
+			}
+		}
+		g.barrier()
+		if len(lag.events) != kcache.EventBufsiz {
+			r.Add("buffer-not-full-before-overrun", 1) // (a library with another buffer size: the case says nothing)
+			g.stop(r, "C12")
+			return
+		}
+		// the overrun: one event too many; its report is held open by the logger
+		if _, ok := pub(); !ok {
+			return
+		}
+		time.Sleep(hold / 4)
+		took := len(drainNow(lag.events))
+		// the consumer has emptied its buffer; everything from here on has room
+		k := 1 + n%3
+		var due []evrec
+		for i := 0; i < k; i++ {
+			e, ok := pub()
+			if !ok {
+				return
+			}
+			due = append(due, e)
+		}
+		g.barrier()
+		var got []evrec
+		for _, e := range drainNow(lag.events) {
+			got = append(got, evrec{Type: e.Type(), Key: kit.Key(e.Resource()), RV: e.Resource().GetResourceVersion()})
+		}
+		r.Add("catch-up-checks", 1)
+		if core.Overruns() > 0 {
+			r.Add("catch-ups-with-the-report-held", 1)
+		}
+		// got may start with the overrunning event (if the library had not dropped it
+		// yet when the buffer was emptied); after that: exactly the due events
+		tail := got
+		if len(tail) > len(due) {
+			tail = tail[len(tail)-len(due):]
+		}
+		ok := len(tail) == len(due)
+		for i := 0; ok && i < len(due); i++ {
+			ok = sameEvent(tail[i], due[i])
+		}
+		if !ok {
+			r.V("C10", "resumed-consumer-lost-events", "the consumer took all %d events it held while its overrun was being reported; the %d event(s) published AFTER that (its buffer empty, nothing else in flight) are %v, it received %v: events that had room in its buffer were lost", took, len(due), due, got)
+		}
+		if hg := hl.mir.events(); len(hg) != rv {
+			r.V("C10", "healthy-subscriber-lost-events", "the reading sibling got %d of %d events", len(hg), rv)
+		}
+		g.stop(r, "C12")
+		r.Key(id)
+		r.Sample = map[string]interface{}{"desc": d, "taken_during_report": took, "published_after": k, "received_after": len(got)}
+	}}
+}
+
 func init() {
 	register("E11", func(tier string, seed uint64) []Case {
 		var cases []Case
@@ -846,6 +958,9 @@ func init() {
 		}
 		for i := 0; i < tierPick(tier, 40, 1200); i++ {
 			cases = append(cases, e11PartialBatchCase(seed, i))
+		}
+		for i := 0; i < tierPick(tier, 36, 1200); i++ {
+			cases = append(cases, e11CatchUpCase(seed, i))
 		}
 		return cases
 	})
